@@ -2973,6 +2973,10 @@ func (s *ImmuStore) ReplicateTx(ctx context.Context, exportedTx []byte, skipInte
 		}
 
 		// value
+		if len(exportedTx) < i+lszSize {
+			return nil, ErrIllegalArguments
+		}
+
 		vLen := int(binary.BigEndian.Uint32(exportedTx[i:]))
 		i += lszSize
 
@@ -2994,6 +2998,10 @@ func (s *ImmuStore) ReplicateTx(ctx context.Context, exportedTx []byte, skipInte
 	// check if there is truncated value information in the transaction
 	if i < len(exportedTx) {
 		// information for truncated value
+		if len(exportedTx) < i+sszSize {
+			return nil, ErrIllegalArguments
+		}
+
 		tLen := int(binary.BigEndian.Uint16(exportedTx[i:]))
 		i += sszSize
 		if len(exportedTx) < i+tLen {
